@@ -2,13 +2,16 @@ import MithrilModel.Proto
 import MithrilModel.Handlers.C00
 import MithrilModel.Handlers.C01
 import MithrilModel.Handlers.C02
+import MithrilModel.Handlers.C03
 import MithrilModel.Handlers.C04
 import MithrilModel.Handlers.C08
 import MithrilModel.Handlers.C09
 import MithrilModel.Handlers.C10
 import MithrilModel.Handlers.C12
+import MithrilModel.Handlers.C13
 import MithrilModel.Handlers.C14
 import MithrilModel.Handlers.C15
+import MithrilModel.Handlers.C16
 import MithrilModel.Handlers.C17
 import MithrilModel.Handlers.C18
 import MithrilModel.Handlers.C19
@@ -22,13 +25,16 @@ def dispatch (line : String) : String :=
       if r.op.startsWith "c00." then Handlers.C00.handle r
       else if r.op.startsWith "c01." then Handlers.C01.handle r
       else if r.op.startsWith "c02." then Handlers.C02.handle r
+      else if r.op.startsWith "c03." then Handlers.C03.handle r
       else if r.op.startsWith "c04." then Handlers.C04.handle r
       else if r.op.startsWith "c08." then Handlers.C08.handle r
       else if r.op.startsWith "c09." then Handlers.C09.handle r
       else if r.op.startsWith "c10." then Handlers.C10.handle r
       else if r.op.startsWith "c12." then Handlers.C12.handle r
+      else if r.op.startsWith "c13." then Handlers.C13.handle r
       else if r.op.startsWith "c14." then Handlers.C14.handle r
       else if r.op.startsWith "c15." then Handlers.C15.handle r
+      else if r.op.startsWith "c16." then Handlers.C16.handle r
       else if r.op.startsWith "c17." then Handlers.C17.handle r
       else if r.op.startsWith "c18." then Handlers.C18.handle r
       else if r.op.startsWith "c19." then Handlers.C19.handle r
